@@ -241,6 +241,25 @@ func (r *recPods) List() ([]*v1.Pod, error) {
 			}
 		}
 	}
+	if gs != nil {
+		// nodes on which the API server holds a bound pod the cache has not seen yet (or sees differently): a code
+		// that asks the server before it removes a node may find such a node busy although the view shows it idle
+		seen := map[string]string{}
+		for _, p := range gs.AllPods {
+			seen[string(p.UID)] = p.Spec.NodeName
+		}
+		for _, p := range w.kube.pods {
+			if p.Spec.NodeName == "" {
+				continue
+			}
+			if on, ok := seen[string(p.UID)]; !ok || on != p.Spec.NodeName {
+				if gs.StaleNodes == nil {
+					gs.StaleNodes = map[string]bool{}
+				}
+				gs.StalePodNodes = append(gs.StalePodNodes, p.Spec.NodeName)
+			}
+		}
+	}
 	w.logf("list g=%s pods n=%d err=%v", r.g, len(pods), err != nil)
 	return pods, err
 }
